@@ -75,7 +75,10 @@ def run(ctx):
     prog = load.program('core-full')
     ctx.rules_run.append('T-ENC: complete input->bytes table of every Encoder method vs RFC 8949 preferred serialisation')
     n_methods = 0
+    half = prog.feature('half')
     for method in tables.ENC_METHODS:
+        if method == 'f16' and not half:
+            continue      # exists only with feature `half`
         try:
             res = tables.enc_rows(prog, method)
         except Abort as e:
@@ -122,7 +125,7 @@ def run(ctx):
                 else:
                     ctx.violation('T-ENC.prefix', 'Encoder::%s' % method, 'bytes offered before a sink error %s are not a prefix of any successful stream' % tables.fmt_stream(pref), where)
         # the Ok cells must cover the whole argument space: union of cells = type range (machine splits are exhaustive by construction)
-    ctx.floor('T-ENC', 'methods', n_methods, 27)
+    ctx.floor('T-ENC', 'methods', n_methods, 27 if half else 26)
 
     # put / type_len: single funnel
     ctx.rules_run.append('F-PUT: Write::write_all is reached only through Encoder::put in encoder.rs')
@@ -186,7 +189,7 @@ def wellformed(ctx, prog):
                 ctx.violation('S-ENC.wf', key + '|extra', 'emission %s continues after a complete item (more than one item / unbalanced header)' % fmt_items(ev)[:200], where)
             else:
                 ctx.ok('S-ENC.wf', key)
-    ctx.floor('S-ENC.wf', 'impls', len(impls), 95)
+    ctx.floor('S-ENC.wf', 'impls', len(impls), 95 if prog.feature('std') else (85 if prog.feature('alloc') else 75))
     # iterator adapters: definite header only under an exact size hint; otherwise begin .. break
     for t in ('minicbor::encode::ArrayIter<I>', 'minicbor::encode::MapIter<I>'):
         r = summaries.summary(prog, '<%s as minicbor::encode::Encode<C>>::encode' % t, 'enc')
